@@ -37,6 +37,7 @@ var vChecksumKinds = []chunkType{ctInit, ctCookieEcho, ctCookieAck, ctSack, ctPa
 func vh_C13_L1_acceptance() {
 	a, _ := vNewAssoc()
 	a.recvZeroChecksum = nondetBool()
+	a.sendZeroChecksum = nondetBool() // what the peer accepts is irrelevant to what this side accepts
 	ctype := vChecksumKinds[vPick(len(vChecksumKinds))]
 	mode := vPick(3)
 	raw := vChecksumPacket(ctype, mode)
@@ -59,6 +60,7 @@ func vh_C13_L1_acceptance() {
 func vh_C13_L4_rejected_has_no_effect() {
 	a, conn := vNewAssoc()
 	a.recvZeroChecksum = nondetBool()
+	a.sendZeroChecksum = nondetBool()
 	a.setState(uint32(vPick(8)))
 	ctype := vChecksumKinds[vPick(len(vChecksumKinds))]
 	raw := vChecksumPacket(ctype, 2)
@@ -113,5 +115,48 @@ func vh_C13_L2_emission() {
 		vassert(field == generatePacketChecksum(raw), "a correct CRC32c is emitted otherwise, and always with INIT / COOKIE-ECHO")
 	}
 	vobserve("len", uint64(len(raw)))
+	vcover("end")
+}
+
+// vRawParam is a parameter given as wire bytes (header included).
+type vRawParam struct{ b []byte }
+
+func (p *vRawParam) marshal() ([]byte, error) { return p.b, nil }
+func (p *vRawParam) length() int              { return len(p.b) }
+
+// C13.L3b: what the peer accepts is learned only from a well-formed Zero Checksum
+// Acceptable parameter naming the DTLS method. A server receives an INIT whose parameter
+// 0x8001 has any length 4..8 and any value bytes, before or after the supported-extensions
+// parameter: it sends zero checksums (INIT-ACK included) exactly when the parameter is
+// complete and its method identifier is 1.
+func vh_C13_L3_learned_only_from_wellformed_parameter() {
+	b := vHandshakeEndpoint(vPick(2) == 1, vPick(2) == 1)
+	b.initServer()
+	init := &chunkInit{}
+	init.initiateTag, init.initialTSN = 1+nondetU32()%0xfffffffe, nondetU32()
+	init.numOutboundStreams, init.numInboundStreams = 10, 10
+	init.advertisedReceiverWindowCredit = 1500
+	setSupportedExtensions(&init.chunkInitCommon, vPick(2) == 1)
+	l := 4 + vPick(5)
+	val := nondetBytes(l - 4)
+	zp := &vRawParam{b: append([]byte{0x80, 0x01, 0, byte(l)}, val...)}
+	if vPick(2) == 1 {
+		init.params = append([]param{zp}, init.params...)
+	} else {
+		init.params = append(init.params, zp)
+	}
+	raw, err := (&packet{sourcePort: 5000, destinationPort: 5000, chunks: []chunk{init}}).marshal(true)
+	vassert(err == nil, "INIT marshals")
+	vInbound(b, raw)
+	wellFormed := l == 8 && val[0] == 0 && val[1] == 0 && val[2] == 0 && val[3] == 1
+	vassert(b.sendZeroChecksum == wellFormed, "zero checksums are sent exactly when the peer declared them acceptable with the DTLS method")
+	for _, out := range vWriterWake(b) {
+		vassert(len(out) >= 12, "reply has a header")
+		field := binary.LittleEndian.Uint32(out[8:])
+		if !wellFormed {
+			vassert(field == generatePacketChecksum(out), "replies carry a correct CRC32c unless acceptance was declared")
+		}
+	}
+	vobserve("wf", vb2u(wellFormed))
 	vcover("end")
 }
